@@ -74,7 +74,10 @@ def replay_history(args):
 
     def observe(step):
         pr = []
-        for j, q in enumerate(probes_for(inserted)):
+        P = probes_for(inserted)
+        if len(inserted) > 40:          # long chains: the union (every leaf is reached), the far box and a thin sample of the probe lattice
+            P = P[-2:] + P[::max(1, len(P) // 12)]
+        for j, q in enumerate(P):
             p = {"id": f"{hid}.{step}.q{j}", "q": q, "res": [], "flag": False, "exc": "none"}
             try:
                 flag, idx = tree.overlaps_aabb(lift_box(q, f))
@@ -195,6 +198,17 @@ def random_histories(n, rng):
             withdata = rng.random() < 0.5
             h.append({"boxes": boxes, "data": [100 + k + i for i in range(nb)] if withdata else [], "mode": mode})
             k += nb
+        out.append(h)
+    # long chains: 70 .. 160 boxes inserted in spatial order (each overlaps its neighbours), as ordered batches (plus single
+    # insertions) or sorted: a tree of linear depth, whose traversal keeps dozens of pending nodes for a query that covers the whole chain
+    for c in range(max(2, n // 60)):
+        m = rng.randint(70, 160)
+        boxes = [[[2 * i, 2 * i + 4], [0, 2], [0, 2 + 2 * (i % 2)]] for i in range(m)]
+        mode = ("mixed", "none", "sort")[c % 3]
+        if mode == "mixed":
+            h = [{"boxes": boxes[:m - 8], "data": [], "mode": "none"}] + [{"boxes": [b], "data": [], "mode": "single"} for b in boxes[m - 8:]]
+        else:
+            h = [{"boxes": boxes[:m // 2], "data": [], "mode": mode}, {"boxes": boxes[m // 2:], "data": [], "mode": mode}]
         out.append(h)
     return out
 
